@@ -1328,7 +1328,6 @@ func (t *tb) cycleMark() string {
 	return fmt.Sprintf("cycle%d:", t.depth)
 }
 
-
 // splitSliceTerm: "X[lo:hi]" or "X[lo:]" -> (X, lo); lo "" reads as 0. Only for a trailing slice expression of a simple base.
 func splitSliceTerm(s string) (string, string, bool) {
 	if !strings.HasSuffix(s, "]") {
